@@ -41,6 +41,7 @@ def run(run):
                 "name, npartitions, divisions, schema and computed result compared with the originating process; non-trivial = every (query, form)")
     run.proofs("PropC16.v")
     quick = run.tier == "quick"
+    catalogue.write_parquet_dataset(rt.dx, os.path.join(common.BUILD, "cat_pq_c16"))
     cols = catalogue.build_all(rt.dx, order_seed=run.seed)
     blobs, local = {}, {}
     forms = {"built": lambda c: c, "optimized": lambda c: c.optimize(), "optimized-nofuse": lambda c: c.optimize(fuse=False),
